@@ -3,7 +3,7 @@ CONSTANTS
   MaxD = 4
   MaxS = 3
   MaxMsgs = 0
-  NbSlots <- AllSlots
+  NbSlots <- ModeSlotsQuick
   Outs <- ModeOuts
   RecvToggles = FALSE
   Mech = "repaired"
